@@ -65,36 +65,37 @@ Record st := mkSt {
   waiters : list (N * bool);
   ran : nat;
   sup_status : N;
-  sup_closed : bool
+  sup_closed : bool;
+  remote : bool            (* the cell carries a REMOTE id (spawn_linked_remote): never enrolled in the name / pid registries *)
 }.
 
-Definition set_pc (v : spc) (x : st) : st := mkSt v (script x) (fin_ x) (fresh x) (named x) (sup x) (local_ x) (status x) (sgn x) (mark x) (name_mine x) (name_other x) (pid_mine x) (groups x) (mons x) (my_sup x) (my_children x) (killed x) (events x) (mailbox x) (ports_open x) (accepted x) (closed_calls x) (waiters x) (ran x) (sup_status x) (sup_closed x).
-Definition set_script (v : list eff) (x : st) : st := mkSt (pc x) v (fin_ x) (fresh x) (named x) (sup x) (local_ x) (status x) (sgn x) (mark x) (name_mine x) (name_other x) (pid_mine x) (groups x) (mons x) (my_sup x) (my_children x) (killed x) (events x) (mailbox x) (ports_open x) (accepted x) (closed_calls x) (waiters x) (ran x) (sup_status x) (sup_closed x).
-Definition set_fin_ (v : fin) (x : st) : st := mkSt (pc x) (script x) v (fresh x) (named x) (sup x) (local_ x) (status x) (sgn x) (mark x) (name_mine x) (name_other x) (pid_mine x) (groups x) (mons x) (my_sup x) (my_children x) (killed x) (events x) (mailbox x) (ports_open x) (accepted x) (closed_calls x) (waiters x) (ran x) (sup_status x) (sup_closed x).
-Definition set_fresh (v : bool) (x : st) : st := mkSt (pc x) (script x) (fin_ x) v (named x) (sup x) (local_ x) (status x) (sgn x) (mark x) (name_mine x) (name_other x) (pid_mine x) (groups x) (mons x) (my_sup x) (my_children x) (killed x) (events x) (mailbox x) (ports_open x) (accepted x) (closed_calls x) (waiters x) (ran x) (sup_status x) (sup_closed x).
-Definition set_named (v : bool) (x : st) : st := mkSt (pc x) (script x) (fin_ x) (fresh x) v (sup x) (local_ x) (status x) (sgn x) (mark x) (name_mine x) (name_other x) (pid_mine x) (groups x) (mons x) (my_sup x) (my_children x) (killed x) (events x) (mailbox x) (ports_open x) (accepted x) (closed_calls x) (waiters x) (ran x) (sup_status x) (sup_closed x).
-Definition set_sup (v : option aid) (x : st) : st := mkSt (pc x) (script x) (fin_ x) (fresh x) (named x) v (local_ x) (status x) (sgn x) (mark x) (name_mine x) (name_other x) (pid_mine x) (groups x) (mons x) (my_sup x) (my_children x) (killed x) (events x) (mailbox x) (ports_open x) (accepted x) (closed_calls x) (waiters x) (ran x) (sup_status x) (sup_closed x).
-Definition set_local_ (v : bool) (x : st) : st := mkSt (pc x) (script x) (fin_ x) (fresh x) (named x) (sup x) v (status x) (sgn x) (mark x) (name_mine x) (name_other x) (pid_mine x) (groups x) (mons x) (my_sup x) (my_children x) (killed x) (events x) (mailbox x) (ports_open x) (accepted x) (closed_calls x) (waiters x) (ran x) (sup_status x) (sup_closed x).
-Definition set_status (v : N) (x : st) : st := mkSt (pc x) (script x) (fin_ x) (fresh x) (named x) (sup x) (local_ x) v (sgn x) (mark x) (name_mine x) (name_other x) (pid_mine x) (groups x) (mons x) (my_sup x) (my_children x) (killed x) (events x) (mailbox x) (ports_open x) (accepted x) (closed_calls x) (waiters x) (ran x) (sup_status x) (sup_closed x).
-Definition set_sgn (v : sigst) (x : st) : st := mkSt (pc x) (script x) (fin_ x) (fresh x) (named x) (sup x) (local_ x) (status x) v (mark x) (name_mine x) (name_other x) (pid_mine x) (groups x) (mons x) (my_sup x) (my_children x) (killed x) (events x) (mailbox x) (ports_open x) (accepted x) (closed_calls x) (waiters x) (ran x) (sup_status x) (sup_closed x).
-Definition set_mark (v : bool) (x : st) : st := mkSt (pc x) (script x) (fin_ x) (fresh x) (named x) (sup x) (local_ x) (status x) (sgn x) v (name_mine x) (name_other x) (pid_mine x) (groups x) (mons x) (my_sup x) (my_children x) (killed x) (events x) (mailbox x) (ports_open x) (accepted x) (closed_calls x) (waiters x) (ran x) (sup_status x) (sup_closed x).
-Definition set_name_mine (v : bool) (x : st) : st := mkSt (pc x) (script x) (fin_ x) (fresh x) (named x) (sup x) (local_ x) (status x) (sgn x) (mark x) v (name_other x) (pid_mine x) (groups x) (mons x) (my_sup x) (my_children x) (killed x) (events x) (mailbox x) (ports_open x) (accepted x) (closed_calls x) (waiters x) (ran x) (sup_status x) (sup_closed x).
-Definition set_name_other (v : option aid) (x : st) : st := mkSt (pc x) (script x) (fin_ x) (fresh x) (named x) (sup x) (local_ x) (status x) (sgn x) (mark x) (name_mine x) v (pid_mine x) (groups x) (mons x) (my_sup x) (my_children x) (killed x) (events x) (mailbox x) (ports_open x) (accepted x) (closed_calls x) (waiters x) (ran x) (sup_status x) (sup_closed x).
-Definition set_pid_mine (v : bool) (x : st) : st := mkSt (pc x) (script x) (fin_ x) (fresh x) (named x) (sup x) (local_ x) (status x) (sgn x) (mark x) (name_mine x) (name_other x) v (groups x) (mons x) (my_sup x) (my_children x) (killed x) (events x) (mailbox x) (ports_open x) (accepted x) (closed_calls x) (waiters x) (ran x) (sup_status x) (sup_closed x).
-Definition set_groups (v : list N) (x : st) : st := mkSt (pc x) (script x) (fin_ x) (fresh x) (named x) (sup x) (local_ x) (status x) (sgn x) (mark x) (name_mine x) (name_other x) (pid_mine x) v (mons x) (my_sup x) (my_children x) (killed x) (events x) (mailbox x) (ports_open x) (accepted x) (closed_calls x) (waiters x) (ran x) (sup_status x) (sup_closed x).
-Definition set_mons (v : list N) (x : st) : st := mkSt (pc x) (script x) (fin_ x) (fresh x) (named x) (sup x) (local_ x) (status x) (sgn x) (mark x) (name_mine x) (name_other x) (pid_mine x) (groups x) v (my_sup x) (my_children x) (killed x) (events x) (mailbox x) (ports_open x) (accepted x) (closed_calls x) (waiters x) (ran x) (sup_status x) (sup_closed x).
-Definition set_my_sup (v : option aid) (x : st) : st := mkSt (pc x) (script x) (fin_ x) (fresh x) (named x) (sup x) (local_ x) (status x) (sgn x) (mark x) (name_mine x) (name_other x) (pid_mine x) (groups x) (mons x) v (my_children x) (killed x) (events x) (mailbox x) (ports_open x) (accepted x) (closed_calls x) (waiters x) (ran x) (sup_status x) (sup_closed x).
-Definition set_my_children (v : option (list aid)) (x : st) : st := mkSt (pc x) (script x) (fin_ x) (fresh x) (named x) (sup x) (local_ x) (status x) (sgn x) (mark x) (name_mine x) (name_other x) (pid_mine x) (groups x) (mons x) (my_sup x) v (killed x) (events x) (mailbox x) (ports_open x) (accepted x) (closed_calls x) (waiters x) (ran x) (sup_status x) (sup_closed x).
-Definition set_killed (v : list aid) (x : st) : st := mkSt (pc x) (script x) (fin_ x) (fresh x) (named x) (sup x) (local_ x) (status x) (sgn x) (mark x) (name_mine x) (name_other x) (pid_mine x) (groups x) (mons x) (my_sup x) (my_children x) v (events x) (mailbox x) (ports_open x) (accepted x) (closed_calls x) (waiters x) (ran x) (sup_status x) (sup_closed x).
-Definition set_events (v : nat) (x : st) : st := mkSt (pc x) (script x) (fin_ x) (fresh x) (named x) (sup x) (local_ x) (status x) (sgn x) (mark x) (name_mine x) (name_other x) (pid_mine x) (groups x) (mons x) (my_sup x) (my_children x) (killed x) v (mailbox x) (ports_open x) (accepted x) (closed_calls x) (waiters x) (ran x) (sup_status x) (sup_closed x).
-Definition set_mailbox (v : list (option N)) (x : st) : st := mkSt (pc x) (script x) (fin_ x) (fresh x) (named x) (sup x) (local_ x) (status x) (sgn x) (mark x) (name_mine x) (name_other x) (pid_mine x) (groups x) (mons x) (my_sup x) (my_children x) (killed x) (events x) v (ports_open x) (accepted x) (closed_calls x) (waiters x) (ran x) (sup_status x) (sup_closed x).
-Definition set_ports_open (v : bool) (x : st) : st := mkSt (pc x) (script x) (fin_ x) (fresh x) (named x) (sup x) (local_ x) (status x) (sgn x) (mark x) (name_mine x) (name_other x) (pid_mine x) (groups x) (mons x) (my_sup x) (my_children x) (killed x) (events x) (mailbox x) v (accepted x) (closed_calls x) (waiters x) (ran x) (sup_status x) (sup_closed x).
-Definition set_accepted (v : list N) (x : st) : st := mkSt (pc x) (script x) (fin_ x) (fresh x) (named x) (sup x) (local_ x) (status x) (sgn x) (mark x) (name_mine x) (name_other x) (pid_mine x) (groups x) (mons x) (my_sup x) (my_children x) (killed x) (events x) (mailbox x) (ports_open x) v (closed_calls x) (waiters x) (ran x) (sup_status x) (sup_closed x).
-Definition set_closed_calls (v : list N) (x : st) : st := mkSt (pc x) (script x) (fin_ x) (fresh x) (named x) (sup x) (local_ x) (status x) (sgn x) (mark x) (name_mine x) (name_other x) (pid_mine x) (groups x) (mons x) (my_sup x) (my_children x) (killed x) (events x) (mailbox x) (ports_open x) (accepted x) v (waiters x) (ran x) (sup_status x) (sup_closed x).
-Definition set_waiters (v : list (N * bool)) (x : st) : st := mkSt (pc x) (script x) (fin_ x) (fresh x) (named x) (sup x) (local_ x) (status x) (sgn x) (mark x) (name_mine x) (name_other x) (pid_mine x) (groups x) (mons x) (my_sup x) (my_children x) (killed x) (events x) (mailbox x) (ports_open x) (accepted x) (closed_calls x) v (ran x) (sup_status x) (sup_closed x).
-Definition set_ran (v : nat) (x : st) : st := mkSt (pc x) (script x) (fin_ x) (fresh x) (named x) (sup x) (local_ x) (status x) (sgn x) (mark x) (name_mine x) (name_other x) (pid_mine x) (groups x) (mons x) (my_sup x) (my_children x) (killed x) (events x) (mailbox x) (ports_open x) (accepted x) (closed_calls x) (waiters x) v (sup_status x) (sup_closed x).
-Definition set_sup_status (v : N) (x : st) : st := mkSt (pc x) (script x) (fin_ x) (fresh x) (named x) (sup x) (local_ x) (status x) (sgn x) (mark x) (name_mine x) (name_other x) (pid_mine x) (groups x) (mons x) (my_sup x) (my_children x) (killed x) (events x) (mailbox x) (ports_open x) (accepted x) (closed_calls x) (waiters x) (ran x) v (sup_closed x).
-Definition set_sup_closed (v : bool) (x : st) : st := mkSt (pc x) (script x) (fin_ x) (fresh x) (named x) (sup x) (local_ x) (status x) (sgn x) (mark x) (name_mine x) (name_other x) (pid_mine x) (groups x) (mons x) (my_sup x) (my_children x) (killed x) (events x) (mailbox x) (ports_open x) (accepted x) (closed_calls x) (waiters x) (ran x) (sup_status x) v.
+Definition set_pc (v : spc) (x : st) : st := mkSt v (script x) (fin_ x) (fresh x) (named x) (sup x) (local_ x) (status x) (sgn x) (mark x) (name_mine x) (name_other x) (pid_mine x) (groups x) (mons x) (my_sup x) (my_children x) (killed x) (events x) (mailbox x) (ports_open x) (accepted x) (closed_calls x) (waiters x) (ran x) (sup_status x) (sup_closed x) (remote x).
+Definition set_script (v : list eff) (x : st) : st := mkSt (pc x) v (fin_ x) (fresh x) (named x) (sup x) (local_ x) (status x) (sgn x) (mark x) (name_mine x) (name_other x) (pid_mine x) (groups x) (mons x) (my_sup x) (my_children x) (killed x) (events x) (mailbox x) (ports_open x) (accepted x) (closed_calls x) (waiters x) (ran x) (sup_status x) (sup_closed x) (remote x).
+Definition set_fin_ (v : fin) (x : st) : st := mkSt (pc x) (script x) v (fresh x) (named x) (sup x) (local_ x) (status x) (sgn x) (mark x) (name_mine x) (name_other x) (pid_mine x) (groups x) (mons x) (my_sup x) (my_children x) (killed x) (events x) (mailbox x) (ports_open x) (accepted x) (closed_calls x) (waiters x) (ran x) (sup_status x) (sup_closed x) (remote x).
+Definition set_fresh (v : bool) (x : st) : st := mkSt (pc x) (script x) (fin_ x) v (named x) (sup x) (local_ x) (status x) (sgn x) (mark x) (name_mine x) (name_other x) (pid_mine x) (groups x) (mons x) (my_sup x) (my_children x) (killed x) (events x) (mailbox x) (ports_open x) (accepted x) (closed_calls x) (waiters x) (ran x) (sup_status x) (sup_closed x) (remote x).
+Definition set_named (v : bool) (x : st) : st := mkSt (pc x) (script x) (fin_ x) (fresh x) v (sup x) (local_ x) (status x) (sgn x) (mark x) (name_mine x) (name_other x) (pid_mine x) (groups x) (mons x) (my_sup x) (my_children x) (killed x) (events x) (mailbox x) (ports_open x) (accepted x) (closed_calls x) (waiters x) (ran x) (sup_status x) (sup_closed x) (remote x).
+Definition set_sup (v : option aid) (x : st) : st := mkSt (pc x) (script x) (fin_ x) (fresh x) (named x) v (local_ x) (status x) (sgn x) (mark x) (name_mine x) (name_other x) (pid_mine x) (groups x) (mons x) (my_sup x) (my_children x) (killed x) (events x) (mailbox x) (ports_open x) (accepted x) (closed_calls x) (waiters x) (ran x) (sup_status x) (sup_closed x) (remote x).
+Definition set_local_ (v : bool) (x : st) : st := mkSt (pc x) (script x) (fin_ x) (fresh x) (named x) (sup x) v (status x) (sgn x) (mark x) (name_mine x) (name_other x) (pid_mine x) (groups x) (mons x) (my_sup x) (my_children x) (killed x) (events x) (mailbox x) (ports_open x) (accepted x) (closed_calls x) (waiters x) (ran x) (sup_status x) (sup_closed x) (remote x).
+Definition set_status (v : N) (x : st) : st := mkSt (pc x) (script x) (fin_ x) (fresh x) (named x) (sup x) (local_ x) v (sgn x) (mark x) (name_mine x) (name_other x) (pid_mine x) (groups x) (mons x) (my_sup x) (my_children x) (killed x) (events x) (mailbox x) (ports_open x) (accepted x) (closed_calls x) (waiters x) (ran x) (sup_status x) (sup_closed x) (remote x).
+Definition set_sgn (v : sigst) (x : st) : st := mkSt (pc x) (script x) (fin_ x) (fresh x) (named x) (sup x) (local_ x) (status x) v (mark x) (name_mine x) (name_other x) (pid_mine x) (groups x) (mons x) (my_sup x) (my_children x) (killed x) (events x) (mailbox x) (ports_open x) (accepted x) (closed_calls x) (waiters x) (ran x) (sup_status x) (sup_closed x) (remote x).
+Definition set_mark (v : bool) (x : st) : st := mkSt (pc x) (script x) (fin_ x) (fresh x) (named x) (sup x) (local_ x) (status x) (sgn x) v (name_mine x) (name_other x) (pid_mine x) (groups x) (mons x) (my_sup x) (my_children x) (killed x) (events x) (mailbox x) (ports_open x) (accepted x) (closed_calls x) (waiters x) (ran x) (sup_status x) (sup_closed x) (remote x).
+Definition set_name_mine (v : bool) (x : st) : st := mkSt (pc x) (script x) (fin_ x) (fresh x) (named x) (sup x) (local_ x) (status x) (sgn x) (mark x) v (name_other x) (pid_mine x) (groups x) (mons x) (my_sup x) (my_children x) (killed x) (events x) (mailbox x) (ports_open x) (accepted x) (closed_calls x) (waiters x) (ran x) (sup_status x) (sup_closed x) (remote x).
+Definition set_name_other (v : option aid) (x : st) : st := mkSt (pc x) (script x) (fin_ x) (fresh x) (named x) (sup x) (local_ x) (status x) (sgn x) (mark x) (name_mine x) v (pid_mine x) (groups x) (mons x) (my_sup x) (my_children x) (killed x) (events x) (mailbox x) (ports_open x) (accepted x) (closed_calls x) (waiters x) (ran x) (sup_status x) (sup_closed x) (remote x).
+Definition set_pid_mine (v : bool) (x : st) : st := mkSt (pc x) (script x) (fin_ x) (fresh x) (named x) (sup x) (local_ x) (status x) (sgn x) (mark x) (name_mine x) (name_other x) v (groups x) (mons x) (my_sup x) (my_children x) (killed x) (events x) (mailbox x) (ports_open x) (accepted x) (closed_calls x) (waiters x) (ran x) (sup_status x) (sup_closed x) (remote x).
+Definition set_groups (v : list N) (x : st) : st := mkSt (pc x) (script x) (fin_ x) (fresh x) (named x) (sup x) (local_ x) (status x) (sgn x) (mark x) (name_mine x) (name_other x) (pid_mine x) v (mons x) (my_sup x) (my_children x) (killed x) (events x) (mailbox x) (ports_open x) (accepted x) (closed_calls x) (waiters x) (ran x) (sup_status x) (sup_closed x) (remote x).
+Definition set_mons (v : list N) (x : st) : st := mkSt (pc x) (script x) (fin_ x) (fresh x) (named x) (sup x) (local_ x) (status x) (sgn x) (mark x) (name_mine x) (name_other x) (pid_mine x) (groups x) v (my_sup x) (my_children x) (killed x) (events x) (mailbox x) (ports_open x) (accepted x) (closed_calls x) (waiters x) (ran x) (sup_status x) (sup_closed x) (remote x).
+Definition set_my_sup (v : option aid) (x : st) : st := mkSt (pc x) (script x) (fin_ x) (fresh x) (named x) (sup x) (local_ x) (status x) (sgn x) (mark x) (name_mine x) (name_other x) (pid_mine x) (groups x) (mons x) v (my_children x) (killed x) (events x) (mailbox x) (ports_open x) (accepted x) (closed_calls x) (waiters x) (ran x) (sup_status x) (sup_closed x) (remote x).
+Definition set_my_children (v : option (list aid)) (x : st) : st := mkSt (pc x) (script x) (fin_ x) (fresh x) (named x) (sup x) (local_ x) (status x) (sgn x) (mark x) (name_mine x) (name_other x) (pid_mine x) (groups x) (mons x) (my_sup x) v (killed x) (events x) (mailbox x) (ports_open x) (accepted x) (closed_calls x) (waiters x) (ran x) (sup_status x) (sup_closed x) (remote x).
+Definition set_killed (v : list aid) (x : st) : st := mkSt (pc x) (script x) (fin_ x) (fresh x) (named x) (sup x) (local_ x) (status x) (sgn x) (mark x) (name_mine x) (name_other x) (pid_mine x) (groups x) (mons x) (my_sup x) (my_children x) v (events x) (mailbox x) (ports_open x) (accepted x) (closed_calls x) (waiters x) (ran x) (sup_status x) (sup_closed x) (remote x).
+Definition set_events (v : nat) (x : st) : st := mkSt (pc x) (script x) (fin_ x) (fresh x) (named x) (sup x) (local_ x) (status x) (sgn x) (mark x) (name_mine x) (name_other x) (pid_mine x) (groups x) (mons x) (my_sup x) (my_children x) (killed x) v (mailbox x) (ports_open x) (accepted x) (closed_calls x) (waiters x) (ran x) (sup_status x) (sup_closed x) (remote x).
+Definition set_mailbox (v : list (option N)) (x : st) : st := mkSt (pc x) (script x) (fin_ x) (fresh x) (named x) (sup x) (local_ x) (status x) (sgn x) (mark x) (name_mine x) (name_other x) (pid_mine x) (groups x) (mons x) (my_sup x) (my_children x) (killed x) (events x) v (ports_open x) (accepted x) (closed_calls x) (waiters x) (ran x) (sup_status x) (sup_closed x) (remote x).
+Definition set_ports_open (v : bool) (x : st) : st := mkSt (pc x) (script x) (fin_ x) (fresh x) (named x) (sup x) (local_ x) (status x) (sgn x) (mark x) (name_mine x) (name_other x) (pid_mine x) (groups x) (mons x) (my_sup x) (my_children x) (killed x) (events x) (mailbox x) v (accepted x) (closed_calls x) (waiters x) (ran x) (sup_status x) (sup_closed x) (remote x).
+Definition set_accepted (v : list N) (x : st) : st := mkSt (pc x) (script x) (fin_ x) (fresh x) (named x) (sup x) (local_ x) (status x) (sgn x) (mark x) (name_mine x) (name_other x) (pid_mine x) (groups x) (mons x) (my_sup x) (my_children x) (killed x) (events x) (mailbox x) (ports_open x) v (closed_calls x) (waiters x) (ran x) (sup_status x) (sup_closed x) (remote x).
+Definition set_closed_calls (v : list N) (x : st) : st := mkSt (pc x) (script x) (fin_ x) (fresh x) (named x) (sup x) (local_ x) (status x) (sgn x) (mark x) (name_mine x) (name_other x) (pid_mine x) (groups x) (mons x) (my_sup x) (my_children x) (killed x) (events x) (mailbox x) (ports_open x) (accepted x) v (waiters x) (ran x) (sup_status x) (sup_closed x) (remote x).
+Definition set_waiters (v : list (N * bool)) (x : st) : st := mkSt (pc x) (script x) (fin_ x) (fresh x) (named x) (sup x) (local_ x) (status x) (sgn x) (mark x) (name_mine x) (name_other x) (pid_mine x) (groups x) (mons x) (my_sup x) (my_children x) (killed x) (events x) (mailbox x) (ports_open x) (accepted x) (closed_calls x) v (ran x) (sup_status x) (sup_closed x) (remote x).
+Definition set_ran (v : nat) (x : st) : st := mkSt (pc x) (script x) (fin_ x) (fresh x) (named x) (sup x) (local_ x) (status x) (sgn x) (mark x) (name_mine x) (name_other x) (pid_mine x) (groups x) (mons x) (my_sup x) (my_children x) (killed x) (events x) (mailbox x) (ports_open x) (accepted x) (closed_calls x) (waiters x) v (sup_status x) (sup_closed x) (remote x).
+Definition set_sup_status (v : N) (x : st) : st := mkSt (pc x) (script x) (fin_ x) (fresh x) (named x) (sup x) (local_ x) (status x) (sgn x) (mark x) (name_mine x) (name_other x) (pid_mine x) (groups x) (mons x) (my_sup x) (my_children x) (killed x) (events x) (mailbox x) (ports_open x) (accepted x) (closed_calls x) (waiters x) (ran x) v (sup_closed x) (remote x).
+Definition set_sup_closed (v : bool) (x : st) : st := mkSt (pc x) (script x) (fin_ x) (fresh x) (named x) (sup x) (local_ x) (status x) (sgn x) (mark x) (name_mine x) (name_other x) (pid_mine x) (groups x) (mons x) (my_sup x) (my_children x) (killed x) (events x) (mailbox x) (ports_open x) (accepted x) (closed_calls x) (waiters x) (ran x) (sup_status x) v (remote x).
 
 Definition mem (a : N) (l : list N) : bool := existsb (N.eqb a) l.
 
@@ -119,7 +120,7 @@ Definition calls (l : list (option N)) : list N :=
 Definition do_c1 (s : st) : st :=
   if status s <? 5 then
     let s1 := set_status 5 (set_pid_mine false (set_mons [] (set_groups [] s))) in
-    if named s then (if name_mine s1 then set_name_mine false s1 else set_name_other None s1) else s1
+    if named s && negb (remote s) then (if name_mine s1 then set_name_mine false s1 else set_name_other None s1) else s1
   else s.
 
 (* terminate(): kill self, close the child set, kill the children *)
@@ -162,7 +163,8 @@ Definition step (l : label) (s : st) : st :=
   | LNew =>
       match pc s with
       | P0 =>
-          if named s then
+          if remote s then set_pc P1 s      (* ActorCell::new_remote: no name, no pid registration *)
+          else if named s then
             match name_other s with
             | Some _ => set_pc PClash s
             | None => set_pc P1 (set_pid_mine true (set_name_mine true s))
@@ -260,10 +262,10 @@ Definition step (l : label) (s : st) : st :=
 Definition exec (ls : list label) (s : st) : st := fold_left (fun s l => step l s) ls s.
 
 (* a spawn request: named?, supervisor?, thread-local order?, the pre_start script; the rest is
-   the environment at the time of the request *)
+   the environment at the time of the request; rem = the cell gets a remote id *)
 Definition init (nm : bool) (sp : option aid) (loc : bool) (scr : list eff) (f : fin)
-                (holder : option aid) (sst : N) (scl : bool) : st :=
-  mkSt P0 scr f false nm sp loc 0 SigNone false false holder false [] [] None (Some []) [] O [] true [] [] [] O sst scl.
+                (holder : option aid) (sst : N) (scl : bool) (rem : bool) : st :=
+  mkSt P0 scr f false nm sp loc 0 SigNone false false holder false [] [] None (Some []) [] O [] true [] [] [] O sst scl rem.
 
 (* nothing of `a` is left: the oracle of C08 *)
 Definition residue_free (s : st) : bool :=
@@ -300,6 +302,9 @@ Definition check_C08 (o : obs) : bool :=
   && negb (o_in_sup_children o) && negb (o_has_sup o) && Nat.eqb (o_children o) 0
   && Nat.eqb (o_events o) 0 && Nat.eqb (o_ran o) 0 && Nat.eqb (o_calls_open o) 0
   && negb (o_send_accepted o) && Nat.eqb (o_orphans o) 0.
+
+(* ... and, when another live actor owns the name the failed spawn carried, that holder is intact *)
+Definition check_C08_holder (o : obs) : bool := check_C08 o && o_holder o.
 
 (* a spawn refused because the name is taken: nothing of a exists and the holder is intact *)
 Definition check_clash (o : obs) : bool :=
